@@ -1,4 +1,175 @@
-(* C08 — placeholder while the model is being tied; replaced by the theorem file. *)
-From WK Require Import Base.Base Model.MsgStore Model.MsgStore_C07 Model.MsgStore_C08.
-Example c08_stub : C08_monitor (C07Case false [] []) = 0.
-Proof. reflexivity. Qed.
+(* C08 — A sender's client message number maps to at most one message; a message
+   id is stored at most once across all channels (strict mode).
+   Model: Model/MsgStore.v; monitor Model/MsgStore_C08.v = the plain sequential
+   logs of C07 + "what must be rejected is rejected" ([must_reject]).
+   Theorems are for EVERY membership filter that is sound ([f_may (f_add f k) k],
+   monotone); the production two-layer Bloom filter is shown sound for arbitrary
+   hash functions.  Histories of any length over the harness' channels; the
+   multi-channel StoreAppendBatch op is excluded ([op_ok]) -- it is exactly where
+   the genuine defect C08-K1 lives ([c08_k1_refuted]). *)
+From WK Require Import Base.Base Model.KV Gen.Consts_C07 Model.MsgStore Model.MsgStore_C07 Model.MsgStore_C08
+     Proof.KV Proof.MsgStore_base Proof.MsgStore_rel Proof.MsgStore_reads Proof.MsgStore_C07 Proof.MsgStore_C08.
+
+(* The production filter (idempotency_filter.go) never forgets: for arbitrary hash functions. *)
+Theorem c08_filter_sound :
+  forall (h1 h2 : bytes * bytes -> N) (f : bloom) (k : bytes * bytes),
+    bloom_may h1 h2 (bloom_add h1 h2 f k) k = true.
+Proof. exact bloom_add_sound. Qed.
+Print Assumptions c08_filter_sound.
+
+Theorem c08_filter_monotone :
+  forall (h1 h2 : bytes * bytes -> N) (f : bloom) (k k' : bytes * bytes),
+    bloom_may h1 h2 f k' = true -> bloom_may h1 h2 (bloom_add h1 h2 f k) k' = true.
+Proof. exact bloom_add_mono. Qed.
+Print Assumptions c08_filter_monotone.
+
+(* Coverage is an invariant of every step: a loaded filter answers "maybe" for
+   every durable idempotency key of its channel (so a negative answer may skip
+   the point read) -- after appends in any mode, failed appends, truncation,
+   trims, lease release and database reopen. *)
+Theorem c08_filter_covers :
+  forall (F : Type) (f_empty : F) (f_may : F -> bytes * bytes -> bool) (f_add : F -> bytes * bytes -> F),
+    (forall f k, f_may (f_add f k) k = true) ->
+    (forall f k k', f_may f k' = true -> f_may (f_add f k) k' = true) ->
+    forall (compact : bool) (st : mstate F) (o : op),
+      Inv F f_may st -> (forall items, o <> OCBatch items) ->
+      Inv F f_may (fst (fst (step_dump F f_empty f_may f_add compact st o))).
+Proof. exact Inv_step. Qed.
+Print Assumptions c08_filter_covers.
+
+(* Rejection: whatever the plain log must reject -- an id or a non-empty pair
+   twice in one batch (every mode), a pair the channel stores (strict and
+   server-allocated-id mode), an id any channel stores (strict mode) -- the three
+   append APIs reject, in every state related to the logs with covering filters. *)
+Theorem c08_append_rejects :
+  forall (F : Type) (f_may : F -> bytes * bytes -> bool) (f_add : F -> bytes * bytes -> F),
+    (forall f k, f_may (f_add f k) k = true) ->
+    (forall f k k', f_may f k' = true -> f_may (f_add f k) k' = true) ->
+    forall (st : mstate F) (s : aspec) (c mode base : N) (recs : list rec),
+      R F st s -> Inv F f_may st -> must_reject s c mode recs = true ->
+      exists e, snd (Append F f_may f_add st c recs mode base) = inr e.
+Proof. exact append_rejects. Qed.
+Print Assumptions c08_append_rejects.
+
+Theorem c08_compat_append_rejects :
+  forall (F : Type) (f_may : F -> bytes * bytes -> bool) (f_add : F -> bytes * bytes -> F),
+    (forall f k, f_may (f_add f k) k = true) ->
+    (forall f k k', f_may f k' = true -> f_may (f_add f k) k' = true) ->
+    forall (st : mstate F) (s : aspec) (c mode : N) (recs : list rec),
+      R F st s -> Inv F f_may st -> must_reject s c mode recs = true ->
+      exists e, snd (CAppend F f_may f_add st c recs mode) = inr e.
+Proof. exact capp_rejects. Qed.
+Print Assumptions c08_compat_append_rejects.
+
+(* The monitor evaluated on implementation traces is what this theorem shows of
+   every model trace, for every sound filter ... *)
+Theorem c08_model_satisfies_monitor :
+  forall (F : Type) (f_empty : F) (f_may : F -> bytes * bytes -> bool) (f_add : F -> bytes * bytes -> F),
+    (forall f k, f_may (f_add f k) k = true) ->
+    (forall f k k', f_may f k' = true -> f_may (f_add f k) k' = true) ->
+    forall (compact : bool) (ops : list op),
+      Forall op_ok ops ->
+      c08_run as_init (entries ops (snd (run F f_empty f_may f_add compact (st_init F f_empty) ops))) = 0.
+Proof. exact c08_model_ok. Qed.
+Print Assumptions c08_model_satisfies_monitor.
+
+(* ... in particular with the production Bloom filter under arbitrary hashes
+   (filter transparency: the observable behaviour does not depend on the hashes) ... *)
+Theorem c08_filter_transparent :
+  forall (h1 h2 : bytes * bytes -> N) (compact : bool) (ops : list op),
+    Forall op_ok ops ->
+    c08_run as_init (entries ops (snd (run bloom bloom_empty (bloom_may h1 h2) (bloom_add h1 h2) compact
+                                           (st_init bloom bloom_empty) ops))) = 0.
+Proof. exact c08_bloom_model_ok. Qed.
+Print Assumptions c08_filter_transparent.
+
+(* ... and with the exact filter of the executable model used by the correspondence check. *)
+Theorem c08_monitor_zero_on_model_trace :
+  forall (compact : bool) (ops : list op) (kv : list kvent),
+    Forall op_ok ops -> C08_monitor (C07Case compact (entries ops (snd (xrun compact ops))) kv) = 0.
+Proof. exact c08_monitor_zero_on_model. Qed.
+Print Assumptions c08_monitor_zero_on_model_trace.
+
+(* Uniqueness in reachable states: two different rows with the same non-empty
+   pair exist only if a trusted-contiguous duplicate tainted the pair ... *)
+Theorem c08_unique_pair :
+  forall (F : Type) (st : mstate F) (s : aspec) (c : N) (r1 r2 : row),
+    R F st s -> In r1 (rows_of (st_kv F st) c) -> In r2 (rows_of (st_kv F st) c) -> r1 <> r2 ->
+    r_uid r1 = r_uid r2 -> r_cno r1 = r_cno r2 -> r_uid r1 <> [] -> r_cno r1 <> [] ->
+    pair_tainted (as_log s c) (r_uid r1) (r_cno r1) = true.
+Proof. exact unique_pair. Qed.
+Print Assumptions c08_unique_pair.
+
+(* ... and without trusted appends it is absolute: strict / server-allocated-id
+   histories never store a pair twice (same batch, later batch, after release,
+   reopen, truncation, trim) ... *)
+Theorem c08_unique_pair_strict :
+  forall (F : Type) (f_empty : F) (f_may : F -> bytes * bytes -> bool) (f_add : F -> bytes * bytes -> F),
+    (forall f k, f_may (f_add f k) k = true) ->
+    (forall f k k', f_may f k' = true -> f_may (f_add f k) k' = true) ->
+    forall (compact : bool) (ops : list op) (c : N) (r1 r2 : row),
+      Forall op_ok ops -> Forall no_trusted ops ->
+      let kv := st_kv F (fst (run F f_empty f_may f_add compact (st_init F f_empty) ops)) in
+      In r1 (rows_of kv c) -> In r2 (rows_of kv c) ->
+      r_uid r1 = r_uid r2 -> r_cno r1 = r_cno r2 -> r_uid r1 <> [] -> r_cno r1 <> [] -> r1 = r2.
+Proof. exact unique_pair_strict. Qed.
+Print Assumptions c08_unique_pair_strict.
+
+(* ... and strict histories never store a message id twice on the node. *)
+Theorem c08_unique_id_strict :
+  forall (F : Type) (f_empty : F) (f_may : F -> bytes * bytes -> bool) (f_add : F -> bytes * bytes -> F),
+    (forall f k, f_may (f_add f k) k = true) ->
+    (forall f k k', f_may f k' = true -> f_may (f_add f k) k' = true) ->
+    forall (compact : bool) (ops : list op) (c1 q1 : N) (r1 : row) (c2 q2 : N) (r2 : row),
+      Forall op_ok ops -> Forall strict_only ops ->
+      let kv := st_kv F (fst (run F f_empty f_may f_add compact (st_init F f_empty) ops)) in
+      kget (KyRow c1 q1) kv = Some (VRow r1) -> kget (KyRow c2 q2) kv = Some (VRow r2) ->
+      r_id r1 = r_id r2 -> (c1, q1) = (c2, q2).
+Proof. exact unique_id_strict. Qed.
+Print Assumptions c08_unique_id_strict.
+
+(* Finding C08-K1 (genuine defect, KNOWN_FINDINGS.json): the full statement "a
+   message id is stored at most once across all channels" is FALSE for the
+   multi-channel StoreAppendBatch: the model (= the code, replayed on /repo from
+   corpus/C08/k1_same_id_two_channels_one_batch.json) accepts the same id in the
+   strict items of two channels; the monitor returns its code 2 for exactly this. *)
+Theorem c08_k1_refuted :
+  map fst (snd (xrun false k1_ops))
+  = [ XBatch [(0, 0, 1); (0, 0, 1)]; XMsgO None;
+      XMsgO (Some (M 1 14 2 [] [] (hashPayload [121]) [121] 1%Z)); XErr EConflict ]
+  /\ (exists r0 r2, kget (KyRow 0 1) (st_kv _ (fst (xrun false k1_ops))) = Some (VRow r0)
+                    /\ kget (KyRow 2 1) (st_kv _ (fst (xrun false k1_ops))) = Some (VRow r2)
+                    /\ r_id r0 = 14 /\ r_id r2 = 14)
+  /\ C08_monitor (C07Case false (entries k1_ops (snd (xrun false k1_ops))) []) = 2.
+Proof. exact k1_refuted. Qed.
+Print Assumptions c08_k1_refuted.
+
+(* ---- non-vacuity -------------------------------------------------------------------------------------- *)
+
+Definition c08_rec (i : N) (uid cno : string) : rec := MsgStore.R i (hx cno) (hx uid) [97] 5%Z 0 0 0.
+
+(* duplicates in the same batch, in a later batch, after release and reopen, in
+   strict and server mode are rejected by the model; a trusted duplicate is stored *)
+Example c08_ex_run :
+  map fst (snd (xrun true
+    [ OAppend 0 0 0 [c08_rec 1 "7531" "6e31"];
+      OAppend 0 1 0 [c08_rec 2 "7531" "6e32"; c08_rec 3 "7531" "6e32"];
+      OAppend 0 1 0 [c08_rec 4 "7531" "6e31"];
+      ORelease 0; OReopen;
+      OAppend 0 0 0 [c08_rec 5 "7531" "6e31"];
+      OAppend 1 0 0 [c08_rec 1 "" ""];
+      OAppend 1 1 0 [c08_rec 1 "" ""];
+      OApply 0 0 [c08_rec 6 "7531" "6e31"] None None ]))
+  = [ XApp 1 1 1; XErr EConflict; XErr EConflict; XOk; XOk; XErr EConflict; XErr EConflict; XApp 1 1 1; XApp 2 2 1 ].
+Proof. vm_compute. reflexivity. Qed.
+
+(* the monitor is not vacuous: an implementation that accepted the later-batch duplicate is flagged *)
+Example c08_monitor_rejects_duplicate :
+  C08_monitor (C07Case true
+    [E (OAppend 0 0 0 [c08_rec 1 "7531" "6e31"]) (XApp 1 1 1) [];
+     E (OAppend 0 1 0 [c08_rec 4 "7531" "6e31"]) (XApp 2 2 1) []] []) = 1.
+Proof. vm_compute. reflexivity. Qed.
+
+Example c08_hypotheses_satisfiable :
+  (forall f k, x_may (x_add f k) k = true) /\ (forall f k k', x_may f k' = true -> x_may (x_add f k) k' = true).
+Proof. split; [exact x_add_sound|exact x_add_mono]. Qed.
